@@ -122,6 +122,13 @@ func RunProviderSched(decoder string, file []byte, preload bool, events string, 
 
 // RunProviderSchedCfg: as RunProviderSched, with the provider's configured default `headers` list.
 func RunProviderSchedCfg(decoder string, file []byte, preload bool, events string, chunks []int, headers []string) string {
+	return RunProviderSchedX(decoder, file, preload, events, chunks, ProvOpts{Headers: headers})
+}
+
+// RunProviderSchedX: as RunProviderSchedCfg, with every provider option of ProvOpts.
+func RunProviderSchedX(decoder string, file []byte, preload bool, events string, chunks []int, o ProvOpts) string {
+	headers := o.Headers
+	mws, stamps := o.build()
 	defer runtime.GOMAXPROCS(runtime.GOMAXPROCS(1))
 	mem := afero.NewMemMapFs()
 	if err := afero.WriteFile(mem, "ammo", file, 0o644); err != nil {
@@ -131,7 +138,7 @@ func RunProviderSchedCfg(decoder string, file []byte, preload bool, events strin
 	if len(chunks) > 0 {
 		fs = chunkFs{Fs: mem, pattern: chunks}
 	}
-	conf := config.Config{Decoder: config.DecoderType(decoder), File: "ammo", Preload: preload, Headers: headers}
+	conf := config.Config{Decoder: config.DecoderType(decoder), File: "ammo", Preload: preload, Headers: headers, Middlewares: mws}
 	type res struct {
 		out    []string
 		status string
@@ -173,14 +180,15 @@ func RunProviderSchedCfg(decoder string, file []byte, preload bool, events strin
 			}
 		}()
 		type held struct {
-			a   core.Ammo
-			idx int
+			a      core.Ammo
+			idx    int
+			t0, t1 time.Time
 		}
 		holding := map[byte]*held{}
 		var order []byte // instances holding, in acquisition order
 		shoot := func(i byte) {
 			h := holding[i]
-			out[h.idx] = summarizeStrict(h.a)
+			out[h.idx] = stamps.check(summarizeStrict(h.a), h.t0, h.t1)
 			prov.Release(h.a)
 			delete(holding, i)
 			for j, x := range order {
@@ -195,14 +203,16 @@ func RunProviderSchedCfg(decoder string, file []byte, preload bool, events strin
 			if _, ok := holding[i]; ok {
 				shoot(i)
 			} else {
+				t0 := time.Now()
 				a, ok := prov.Acquire()
+				t1 := time.Now()
 				switch {
 				case !ok && a != nil:
 					status = "invalid"
 				case !ok:
 					status = "closed"
 				default:
-					holding[i] = &held{a, len(out)}
+					holding[i] = &held{a, len(out), t0, t1}
 					order = append(order, i)
 					out = append(out, "")
 				}
